@@ -69,6 +69,8 @@ def run(chk, prog, tier):
                         "%s changes only the configuration fields it documents (%s)" % (fn, sorted(allowed)),
                         "also changes %s" % sorted(set(netdirty[fn]) - allowed))
     chk.floor("assemble entry points", len(roles.entries), 6)
+    from valib import chunk as CH
+    CH.setter_mode_rule(chk, prog)
     # which result fields may the assemble family write (interprocedural)
     fx = EFF.field_effects(prog, roles.g)
     for fn in roles.entries:
